@@ -1,0 +1,36 @@
+//go:build verif
+
+package health
+
+import (
+	"context"
+	"sync/atomic"
+	"time"
+)
+
+// Verification hooks (build tag "verif" only): they expose simulated time for the
+// circuit breaker and the scheduler pass the ticker would run. Nothing here is compiled
+// into a normal build.
+
+// VerifShift makes every stored timestamp of the breaker look d older ("d has passed").
+func (cb *CircuitBreaker) VerifShift(d time.Duration) {
+	cb.endpoints.Range(func(_ string, st *circuitState) bool {
+		if v := atomic.LoadInt64(&st.lastFailure); v != 0 {
+			atomic.StoreInt64(&st.lastFailure, v-int64(d))
+		}
+		if v := atomic.LoadInt64(&st.lastAttempt); v != 0 {
+			atomic.StoreInt64(&st.lastAttempt, v-int64(d))
+		}
+		return true
+	})
+}
+
+// VerifShift applies VerifShift to the checker's private breaker.
+func (c *HTTPHealthChecker) VerifShift(d time.Duration) {
+	c.healthClient.circuitBreaker.VerifShift(d)
+}
+
+// VerifTick runs one scheduler pass, the one the 30s ticker drives.
+func (c *HTTPHealthChecker) VerifTick(ctx context.Context) {
+	c.performHealthChecks(ctx)
+}
